@@ -42,11 +42,11 @@ func add(ar Arity, write bool, names ...string) {
 func init() {
 	// reads
 	add(Ar1, false, "exists", "ttl", "pttl", "type", "dump", "get", "strlen", "hgetall", "hkeys", "hlen", "hvals",
-		"llen", "scard", "smembers", "zcard")
+		"llen", "scard", "smembers", "zcard", "pfcount")
 	add(Ar2, false, "getbit", "hexists", "hget", "lindex", "sismember", "zrank", "zrevrank", "zscore")
 	add(Ar3, false, "getrange", "lrange", "zcount", "zlexcount")
 	add(ArInf, false, "bitcount", "mget", "hmget", "srandmember", "sdiff", "sinter", "zrange", "zrangebylex",
-		"zrangebyscore", "zrevrange", "zrevrangebyscore", "sunion", "pfcount")
+		"zrangebyscore", "zrevrange", "zrevrangebyscore", "sunion")
 	// cursor scans: master
 	add(ArInf, true, "hscan", "sscan", "zscan")
 	// writes
